@@ -58,13 +58,24 @@ def annotation_only_names(src):
     if fdef is None:
         return set()
     ann_nodes = []
-    for node in ast.walk(fdef):
-        if isinstance(node, ast.AnnAssign):
-            ann_nodes.append(node.annotation)
-        elif isinstance(node, ast.arg) and node.annotation is not None:
-            ann_nodes.append(node.annotation)
-        elif isinstance(node, ast.FunctionDef) and node.returns is not None:
-            ann_nodes.append(node.returns)
+
+    def own_nodes(node):
+        # the nodes of f's own scope (nested function / lambda / class bodies are other scopes; the
+        # annotations in the signature of a nested def ARE evaluated by f when it executes the def)
+        for ch in ast.iter_child_nodes(node):
+            yield ch
+            if not isinstance(ch, (ast.FunctionDef, ast.AsyncFunctionDef, ast.Lambda, ast.ClassDef)):
+                yield from own_nodes(ch)
+
+    for a in [*fdef.args.posonlyargs, *fdef.args.args, fdef.args.vararg, *fdef.args.kwonlyargs, fdef.args.kwarg]:
+        if a is not None and a.annotation is not None:
+            ann_nodes.append(a.annotation)
+    if fdef.returns is not None:
+        ann_nodes.append(fdef.returns)
+    for stmt in fdef.body:
+        for node in [stmt, *own_nodes(stmt)]:
+            if isinstance(node, ast.AnnAssign):
+                ann_nodes.append(node.annotation)
     in_ann = set()
     ann_ids = set()
     for a in ann_nodes:
@@ -74,6 +85,23 @@ def annotation_only_names(src):
                 in_ann.add(n.id)
     elsewhere = {n.id for n in ast.walk(fdef) if isinstance(n, ast.Name) and id(n) not in ann_ids}
     return in_ann - elsewhere
+
+
+def definition_time_only_names(src):
+    """Names that occur only in f's own default values and decorators: they are evaluated when f is
+    defined, by the enclosing scope - f itself never reads them."""
+    import ast
+
+    tree = ast.parse(src)
+    fdef = next((n for n in ast.walk(tree) if isinstance(n, ast.FunctionDef) and n.name == "f"), None)
+    if fdef is None:
+        return set()
+    outside = [*fdef.decorator_list, *fdef.args.defaults, *[d for d in fdef.args.kw_defaults if d is not None]]
+    out_ids = {id(n) for e in outside for n in ast.walk(e)}
+    out_names = {n.id for e in outside for n in ast.walk(e) if isinstance(n, ast.Name)}
+    inside = {n.id for n in ast.walk(fdef) if isinstance(n, ast.Name) and id(n) not in out_ids}
+    inside |= {a.arg for a in ast.walk(fdef) if isinstance(a, ast.arg)}
+    return out_names - inside - {"f"}
 
 
 def nested_reads(tab, name):
@@ -177,6 +205,22 @@ def check_program(m, mod, res, case_base, icount):
             res.count("closure_names_read_only_by_nested_scopes")
     if len(provs) >= 3:
         res.nontrivial_case(m["src"])
+    # names that only f's default values / decorators use are not names of f
+    for name in sorted(definition_time_only_names(m["src"])):
+        if any(sym.get_name() == name for sym in tab.get_symbols()):
+            continue
+        res.evaluations += 1
+        res.deciding += 1
+        err = None
+        try:
+            prb = probing(f"f > {name}", env=ns)
+            prb.__enter__()
+            prb.__exit__(None, None, None)
+        except Exception as e:
+            err = e
+        if not isinstance(err, SelectorError):
+            res.violation(dict(case_base, name=name), {"what": f"'f > {name}' was accepted although {name} only occurs in f's default values / decorators (evaluated when f is defined, not a name f reads)", "got": repr(err)[:200]})
+        res.count("definition_time_only_names_refused")
     # names occurring nowhere
     for k in range(3):
         fresh = f"zq_{k}_nowhere"
@@ -227,6 +271,9 @@ SHAPES = [
     "def f(w):\n    match w:\n        case [a, *b]:\n            return a\n        case {'k': c, **d}:\n            return c\n        case str() as s:\n            return s\n    return None\n",
     "def f(w):\n    async def co(z):\n        return z + w\n    return co\n",
     "def f(w):\n    g = lambda: (y := w)\n    y = 0\n    return g() + y\n",
+    "H = int\ndef f(w):\n    def inner(v: H) -> H:\n        return v\n    return inner(w)\n",
+    "def factory():\n    cv = 5\n    def f(p=cv):\n        q = p + 1\n        return q\n    return f\nf = factory()\n",
+    "def deco(fn):\n    return fn\nK = 3\n@deco\ndef f(p=K):\n    café = p + 1\n    return café\n",
 ]
 
 
